@@ -31,6 +31,26 @@ func genC18(c *Ctx) {
 		txt, _ := g.pipe(c.Rng.Range(1, 3))
 		pipes = append(pipes, txt)
 	}
+	// sources / operators of the reusable subset that are outside the Lean model (FromIterator, FromMap*, FlatMap,
+	// Peek): spec-only histories, each fault-free materialisation compared with a fresh stream value (Go vs Go)
+	specReusable := []string{
+		"lc 1 fromiter 1,2,3",
+		"merge 2 fromiter 1,3 fromiter 2,4",
+		"map add:1 frommap 1,2,3,4",
+		"concat 2 frommap 1,2 lc 2 fromiter 3",
+		"flatmap lc 1 src 0 1,2,3",
+		"zip 2 peek src 0 1,2,3 flatmap fromiter 4,5",
+		"flatmap merge 2 src 0 1,3 src 1 2",
+	}
+	specEndings := []string{"collect all nofault", "collect take:1 nofault", "collect take:2 nofault", "user all err@1", "user all perr@2", "collect all cancel@2", "user all err@4"}
+	for _, p := range specReusable {
+		for _, e1 := range specEndings {
+			c.Case(true, "SPEC "+strings.Join([]string{p, e1, "collect all nofault"}, " || "))
+			for _, e2 := range specEndings {
+				c.Case(true, "SPEC "+strings.Join([]string{p, e1, e2, "collect all nofault"}, " || "))
+			}
+		}
+	}
 	for pi, p := range pipes {
 		nCalls := callsOf(p + " || collect all nofault")
 		endings := []string{"collect all nofault", "collect take:1 nofault", "collect take:2 nofault", "collect take:0 nofault"}
